@@ -1030,6 +1030,16 @@ mod threads {
 
     const GENEROUS: Duration = Duration::from_secs(10);
 
+    /// Generous the first time; once one scenario has established that watchers hold callers up,
+    /// the remaining ones only need to tell which operations are affected.
+    fn generous() -> Duration {
+        if WATCHERS_BROKEN.load(Ordering::SeqCst) {
+            Duration::from_secs(3)
+        } else {
+            GENEROUS
+        }
+    }
+
     /// Can another thread get at the channel's state within `limit`? (`verif_snapshot` takes the
     /// channel's own lock: no answer = somebody holds it.)
     fn state_lock_reachable(sender: &Arc<Sender<Chan>>, limit: Duration) -> bool {
@@ -1080,9 +1090,10 @@ mod threads {
             });
         }
         let begin = Instant::now();
+        let patience = generous();
         let mut returned_while_closed = Vec::new();
         for d in &dones {
-            let left = GENEROUS.checked_sub(begin.elapsed()).unwrap_or(Duration::from_millis(1));
+            let left = patience.checked_sub(begin.elapsed()).unwrap_or(Duration::from_millis(1));
             returned_while_closed.push(d.wait(left).is_some());
         }
         gate.open();
@@ -1098,7 +1109,7 @@ mod threads {
                     &format!("C09:send-waited-for-a-watcher-callback:{}", name),
                     &format!(
                         "{} from another thread did not return for {:?} while a {} watcher was parked inside the receiver, and returned right after the watcher was released",
-                        name, GENEROUS, reg.name()
+                        name, patience, reg.name()
                     ),
                     case.clone(),
                 );
@@ -1149,7 +1160,7 @@ mod threads {
             return;
         }
         r.nontrivial(&("watchers-reentrant", reg, op, rk, cap));
-        if returned.wait(GENEROUS).is_some() {
+        if returned.wait(generous()).is_some() {
             r.observe(&format!("watchers:reentrant-{}-returned", op.name()), 1);
             let joined = run_bounded("c09_cleanup", GENEROUS + GENEROUS, move || {
                 drop(sender);
@@ -2076,9 +2087,9 @@ fn main() {
                         }
                     }
                 }
-                let cells = &cells;
-                par_cases(r, &args2, cells.len() as u64, |i, r| {
-                    let (reg, op, rk, cap) = cells[i as usize];
+                let _ = &args2;
+                par_each(r, &cells, |cell, r| {
+                    let (reg, op, rk, cap) = *cell;
                     match op {
                         None => threads::blocking_watcher_case(r, reg, rk, cap),
                         Some(op) => threads::reentrant_watcher_case(r, reg, op, rk, cap),
